@@ -264,6 +264,56 @@ theorem loss_is_permanent (sched : List Actor) (s s1 : St) (o o1 : Op) (h0 : s.l
     (hD : DoomedSt s o) (hr : run sched s o = (s1, .inl o1)) : s1.left = 0 :=
   (run_keeps doomed_stepInv sched s s1 o o1 hD hr).2.2.1 h0
 
+/-! ## on-open / on-close step sequences of platform-built drivers -/
+
+/-- OBLIGATION on the regenerated fact (go/ast over platform/onx.go): in every on-X step loop no case
+arm binds the step's error with `:=` (which would shadow the loop's `err`), and the loop tests
+`err` right after the switch and returns it. -/
+theorem onx_loops_propagate_errors :
+    Gen.C06ReadLoop.onxLoops = [("asGenericOnX", [], true), ("asNetworkOnX", [], true)] := by decide
+
+/-- `onx_loss_propagates`: the first failing step's error is the result of the whole on-X function,
+reached in the state that step left behind — no later step runs (so `Open` / the on-close function
+reports the loss that struck during that step). -/
+theorem onx_loss_propagates {σ ε : Type} (pre post : List (σ → σ × Option ε)) (f : σ → σ × Option ε)
+    (s s1 s2 : σ) (e : ε) (hpre : onxSeq pre s = (s1, none)) (hf : f s1 = (s2, some e)) :
+    onxSeq (pre ++ f :: post) s = (s2, some e) := by
+  induction pre generalizing s with
+  | nil =>
+    simp only [onxSeq] at hpre
+    obtain ⟨h1, _⟩ := Prod.mk.inj hpre
+    subst h1
+    simp [onxSeq, hf]
+  | cons g gs ih =>
+    simp only [List.cons_append, onxSeq] at hpre ⊢
+    rcases hg : g s with ⟨sg, eg⟩
+    rw [hg] at hpre
+    cases eg with
+    | some x => simp at hpre
+    | none => simp only at hpre ⊢; exact ih sg hpre
+
+/-- and a sequence reports success only if every step succeeded -/
+theorem onx_success_means_all_steps_ok {σ ε : Type} (steps : List (σ → σ × Option ε)) (s s' : σ)
+    (h : onxSeq steps s = (s', none)) :
+    ∀ pre f post, steps = pre ++ f :: post → ∀ s1, onxSeq pre s = (s1, none) → (f s1).2 = none := by
+  intro pre f post hsplit s1 hpre
+  cases hf : (f s1).2 with
+  | none => rfl
+  | some e =>
+    have := onx_loss_propagates pre post f s s1 (f s1).1 e hpre (by rw [← hf])
+    rw [← hsplit, h] at this
+    simp at this
+
+/-- NEGATIVE WITNESS for the shadowed variant: a step that fails (the loss) but whose error is bound
+with `:=` lets the sequence go on and report success -/
+theorem onx_shadowing_hides_the_loss :
+    onxSeqShadow [(false, fun (n : Nat) => (n + 1, (none : Option String))),
+                  (true, fun n => (n + 1, some "connection lost")),
+                  (false, fun n => (n + 1, none))] 0 = (3, none) ∧
+    onxSeq [fun (n : Nat) => (n + 1, (none : Option String)), fun n => (n + 1, some "connection lost"),
+            fun n => (n + 1, none)] 0 = (2, some "connection lost") := by
+  decide
+
 /-! ## the loss is permanent across failed re-opens -/
 
 /-- OBLIGATION on the regenerated fact: the `readLoopExited.Store(…)` sites of package channel never
